@@ -147,8 +147,8 @@ package tags
 //@ at call makeIterator #1: nothing = result == nil
 //@ at call Len #1: decided = true
 //@ at call Len #1: nothing = result == 0
-//@ at call RenderBlock #1: elseRendered = true
-//@ at call RenderBlock #1 assert elseClause: arg1 == node.Clauses[0] && node.Clauses[0].Name == "else"
+//@ at call RenderBlock #*: elseRendered = true
+//@ at call RenderBlock #* assert elseClause: arg1 == node.Clauses[0] && node.Clauses[0].Name == "else"
 //@ at call render #1: looped = true
 //@ at call render #1 assert selected: arg1.Len() > 0 || len(node.Clauses) != 1 || node.Clauses[0].Name != "else"
 //@ ensures elseWhenEmpty: decided && nothing && old(len(node.Clauses) == 1 && node.Clauses[0].Name == "else") ==> elseRendered && !looped
